@@ -287,9 +287,10 @@ PROPS["C03"] = dict(
         Leg("cores", ["models/c03_api.cpp"], "asan", ["--subset", "cores", "--depth", "2"], ["--subset", "cores", "--depth", "3"], timeout_thorough=14000),
         Leg("banks", ["models/c03_api.cpp"], "asan", ["--subset", "banks", "--depth", "7"], ["--subset", "banks", "--depth", "9"], timeout_thorough=14000),
         # the real-time note/pedal/arpeggio machinery from full-chip and busy start states with a focused alphabet and time steps long enough for key-on times to run out; oracle: memory safety and termination only
-        # user lists at their fixed capacity (about 1000 held keys of one timbre, auto-arpeggio on / off): the next note of another timbre has to evict or evacuate
-        Leg("flood", RT_SRC, "asan", ["--prop", "C03", "--starts", "flood arp=1 chips=1,flood chips=1,flood arp=1 chips=2", "--only-ops", FOCUS_OPS_C03, "--depth", "2"],
-            ["--prop", "C03", "--starts", "flood arp=1 chips=1,flood chips=1,flood arp=1 chips=2", "--only-ops", FOCUS_OPS_C03, "--depth", "3"]),
+        # user lists at their fixed capacity (about 1800 held keys of one timbre, auto-arpeggio on / off): the next note of another timbre has to evict or evacuate;
+        # and ten drum notes of one short-delay timbre on one chip (arpeggio turns inside the 30 ms minimal life time of a drum note)
+        Leg("flood", RT_SRC, "asan", ["--prop", "C03", "--starts", "flood arp=1 chips=1,flood chips=1,flood arp=1 chips=2,drumflood arp=1 chips=1,drumflood chips=1", "--only-ops", FOCUS_OPS_C03, "--depth", "2"],
+            ["--prop", "C03", "--starts", "flood arp=1 chips=1,flood chips=1,flood arp=1 chips=2,drumflood arp=1 chips=1,drumflood chips=1,drumflood arp=1 chips=2", "--only-ops", FOCUS_OPS_C03, "--depth", "3"]),
         Leg("rtdeep", RT_SRC, "asan", ["--prop", "C03", "--starts", "busy6same arp=1,busy6same,busy5", "--only-ops", FOCUS_OPS_C03, "--depth", "6"],
             ["--prop", "C03", "--starts", "busy6same arp=1,busy6same,busy5,nearfull chips=2", "--only-ops", FOCUS_OPS_C03, "--depth", "8"], timeout_thorough=14000),
     ],
